@@ -6,7 +6,7 @@ import os, sys, json, math, time, subprocess, tempfile, hashlib
 SYNTH = ["linear", "neighbors", "kernel", "mlp"]
 
 def gen_env_group(rng, gi):
-    kind = rng.choice(SYNTH + ["linear", "supervised", "lambda"])
+    kind = rng.choice(SYNTH + ["linear", "supervised", "lambda", "lambda-sparse"])
     g = {"kind": kind, "n": rng.choice([4, 6, 9, 12]), "seed": rng.randrange(1, 50), "tag": f"g{gi}", "filters": []}
     if kind in SYNTH:
         g.update(na=rng.choice([2, 3, 4]), ncf=rng.choice([1, 2, 3]), naf=rng.choice([0, 2]) if kind != "neighbors" else 0)
@@ -30,8 +30,10 @@ def gen_env_group(rng, gi):
     elif r < .28: fs.append(["slice", rng.choice([0, 1]), rng.choice([None, 6]), rng.choice([1, 2])])
     elif r < .33: fs.append(["binary"])
     elif r < .38: fs.append(["where", rng.choice([1, 3])])
+    if kind == "lambda-sparse" and rng.random() < .7: fs.insert(0, ["dense", rng.choice([6, 8]), "lookup"])   # a stateful name->column table
     if rng.random() < .2: fs.append(["logged", rng.randrange(1, 9)])
     if rng.random() < .12: fs.append(["batch", rng.choice([2, 3])])
+    elif rng.random() < .1: fs.append(["materialize"])           # interactions (and their reward objects) exist before the work is shipped
     return g
 
 # stateful-mem: a learner with __len__ (falsy while it has learned nothing); stateful-armkeys: writes non-str keys to learning_info
@@ -53,6 +55,15 @@ def gen_spec(rng, max_groups=3, max_lrns=3, max_vals=2):
     if any(f[0] == "logged" for g in groups for f in g["filters"]) and rng.random() < .8:
         vals[-1]["kind"] = rng.choice(["cb-ips", "rejection"])                     # logged data is actually used by an off-policy evaluator
     spec = {"groups": groups, "lrns": lrns, "vals": vals, "seed": rng.choice([1, 7, 42, 0]), "triples": "cross"}
+    # the filters of the first group are applied to the union of the first two data sets by ONE fluent call each
+    # ((data1+data2).chunk().shuffle(n=2)...): pipelines of different data sets that went through the same Environments call
+    if len(groups) >= 2 and rng.random() < .4:
+        spec["combine"] = True
+        if rng.random() < .35:
+            # two sparse data sets with different feature names, densified by one call (a name->column table per environment)
+            for g in groups[:2]:
+                g["kind"] = "lambda-sparse"; g["filters"] = [f for f in g["filters"] if f[0] not in ("dense", "scale", "noise", "sort", "where")]
+            groups[0]["filters"].insert(0, ["dense", 8, "lookup"])
     if rng.random() < .35:
         # explicit tuple list over (group-member index resolved at build time, learner, evaluator), objects shared in random patterns
         spec["triples"] = [[rng.random(), rng.randrange(len(lrns)), rng.randrange(len(vals)) if rng.random() < .8 else None]
@@ -64,9 +75,31 @@ def lam_context(i): return [i % 3, (i * 7) % 5]
 def lam_actions(i, c): return [0, 1, 2]
 def lam_reward(i, c, a): return float((a + c[0]) % 3 == 0)
 
-def build_envs(g):
+def lam_sparse_context_a(i): return {f"a{i % 3}": 1, f"a{(i * 7) % 5 + 3}": i % 4 + 1}
+def lam_sparse_context_b(i): return {f"b{(i * 3) % 4}": 2, f"b{i % 2 + 5}": 1, "shared": i % 3}
+
+def build_base(g):
+    from coba.environments import Environments
+    k = g["kind"]
+    if k == "lambda-sparse":
+        # sparse contexts whose feature names depend on the group
+        envs = Environments.from_lambda(g["n"], lam_sparse_context_a if int(g["tag"][1:]) % 2 == 0 else lam_sparse_context_b, lam_actions, lam_reward_any)
+        return envs.params({"tag": g["tag"]})
+    return None
+
+def lam_reward_any(i, c, a): return float((a + i) % 3 == 0)
+
+def build_envs(g, base=None):
     from coba.environments import Environments
     from vf import components as comp
+    k = g["kind"]
+    if base is not None: envs = base
+    elif k == "lambda-sparse": envs = build_base(g)
+    else: envs = _build_plain_base(g)
+    return list(_apply_filters(envs, g["filters"]))
+
+def _build_plain_base(g):
+    from coba.environments import Environments
     k = g["kind"]
     if k == "linear":      envs = Environments.from_linear_synthetic(g["n"], n_actions=g["na"], n_context_features=g["ncf"], n_action_features=g["naf"], seed=g["seed"])
     elif k == "neighbors": envs = Environments.from_neighbors_synthetic(g["n"], n_actions=g["na"], n_context_features=g["ncf"], seed=g["seed"])
@@ -75,8 +108,11 @@ def build_envs(g):
     elif k == "supervised":envs = Environments.from_supervised([list(x) for x in g["X"]], list(g["Y"]))
     elif k == "lambda":    envs = Environments.from_lambda(g["n"], lam_context, lam_actions, lam_reward)
     else: raise ValueError(k)
-    envs = envs.params({"tag": g["tag"]})
-    for f in g["filters"]:
+    return envs.params({"tag": g["tag"]})
+
+def _apply_filters(envs, filters):
+    from vf import components as comp
+    for f in filters:
         if   f[0] == "chunk":     envs = envs.chunk()
         elif f[0] == "cache":     envs = envs.cache()
         elif f[0] == "shuffle_n": envs = envs.shuffle(n=f[1])
@@ -92,10 +128,12 @@ def build_envs(g):
         elif f[0] == "slice":     envs = envs.slice(f[1], f[2], f[3])
         elif f[0] == "binary":    envs = envs.binary()
         elif f[0] == "where":     envs = envs.where(n_interactions=(f[1], None))
+        elif f[0] == "dense":     envs = envs.dense(f[1], f[2])
+        elif f[0] == "materialize": envs = envs.materialize()
         elif f[0] == "logged":
             from coba.learners import RandomLearner
             envs = envs.logged(RandomLearner(seed=f[1]), seed=float(f[1]))
-    return list(envs)
+    return envs
 
 def build_learner(l, fail=None):
     from vf import components as comp
@@ -129,7 +167,13 @@ def build_experiment(spec, side=None, faults=None, only_triple=None):
     from vf import components as comp
     faults = faults or {}
     envs = []
-    for g in spec["groups"]: envs.extend(build_envs(g))
+    groups = list(spec["groups"])
+    if spec.get("combine") and len(groups) >= 2:
+        g0, g1 = groups[0], groups[1]
+        b0 = build_base(g0) or _build_plain_base(g0); b1 = build_base(g1) or _build_plain_base(g1)
+        envs.extend(build_envs(g0, base=b0 + b1))
+        groups = groups[2:]
+    for g in groups: envs.extend(build_envs(g))
     for i, (where, k) in (faults.get("env") or {}).items():
         i = int(i)
         if i < len(envs): envs[i] = comp.FailingEnv(envs[i], where, k)
@@ -164,11 +208,22 @@ def canon_table(t):
 
 def canon_result(res):
     exp = {k: v for k, v in dict(res.experiment).items()}
+    def ids(t, c): return [r[t.columns.index(c)] for r in t] if c in t.columns else []
+    it = res.interactions
+    trip = []
+    if all(c in it.columns for c in ("environment_id", "learner_id", "evaluator_id")):
+        pos = [it.columns.index(c) for c in ("environment_id", "learner_id", "evaluator_id")]
+        for r in it:
+            k = [r[p] for p in pos]
+            if not trip or trip[-1] != k: trip.append(k)
+    # the tables are documented to be rebuilt sorted by ids, whatever the arrival order of the records
+    order = {"environments": ids(res.environments, "environment_id"), "learners": ids(res.learners, "learner_id"),
+             "evaluators": ids(res.evaluators, "evaluator_id"), "interactions": trip}
     return {"environments": canon_table(res.environments), "learners": canon_table(res.learners),
-            "evaluators": canon_table(res.evaluators), "interactions": canon_table(res.interactions), "experiment": _cv(exp)}
+            "evaluators": canon_table(res.evaluators), "interactions": canon_table(res.interactions), "experiment": _cv(exp), "order": order}
 
 def diff_canon(a, b):
-    for t in ("experiment", "environments", "learners", "evaluators", "interactions"):
+    for t in ("experiment", "environments", "learners", "evaluators", "interactions", "order"):
         if a[t] != b[t]:
             if isinstance(a[t], list):
                 sa = [json.dumps(r, sort_keys=True) for r in a[t]]; sb = [json.dumps(r, sort_keys=True) for r in b[t]]
